@@ -25,6 +25,19 @@ CHECKS = {
                 "(pv/refinst.py), CrossHair models, transform() executed natively.",
         "technique": "bounded symbolic execution (CrossHair + z3) of probing() vs an independent trace twin",
     },
+    "C04": {
+        "category": "model_checking",
+        "text": "Bounded symbolic execution of the real override path (OverridableProbe.override/koverride through the giving "
+                "pipeline, Overlay.tweaking/rewriting) against an independent substitution twin of the same template: arguments, "
+                "override constants and the decline threshold are symbolic; compared are outcome, ordered effect log, final state and "
+                "the stream of a plain probe, for every listed binding form (parameter, plain/tuple/starred/aug/walrus/with/loop "
+                "target, attribute store, #value, #yield), override family (constant, context-dependent, conditional via filter or "
+                "ABSENT) and nesting order of two overriding and one plain probe; closure variables must raise OverrideException.",
+        "design_ref": "DESIGN.md section 4, C04",
+        "note": "Program dimension enumerated (36 template/focus targets). Trusted: the substitution twin, CrossHair models, "
+                "native transform(), the real giving/reactivex pipeline is executed (not stubbed).",
+        "technique": "bounded symbolic execution (CrossHair + z3) of the override path vs an independent substitution twin",
+    },
     "C06": {
         "category": "model_checking",
         "text": "Bounded symbolic execution of real probes on every meta-variable (#enter/#exit/#value/#error/#loop_X/#endloop_X/"
